@@ -174,6 +174,13 @@ func New(w, h int, dec encoding.Encoding) *Term {
 
 func (t *Term) At(x, y int) *Cell { return &t.cells[y*t.W+x] }
 
+// AbortSequence drops a partially received control sequence or character
+// (the writer's output was cut short by an injected fault).
+func (t *Term) AbortSequence() {
+	t.st = stGround
+	t.u8 = t.u8[:0]
+}
+
 func (t *Term) InGround() bool { return t.st == stGround && len(t.u8) == 0 }
 
 func (t *Term) errf(format string, args ...interface{}) {
